@@ -26,21 +26,34 @@ Definition argmax (l : list T) : nat :=
 
 Definition vz (v : vec3) : T := let '(_, _, z) := v in z.
 
-(* kind: 0 = plain; 1 = groups 321, 312, 32, -4 (flip z<0 with the LAST
-   element, then use the first three); 2 = group -3 (flip with element 3) *)
+(* kind: 0 = plain; 1 = groups 321, 312, 32 (flip z<0 with the LAST element, then use the
+   first three); 2 = group -3 (flip with element 3, then the first three); 3 = group -4
+   (flip with the LAST element, then use the PROPER elements: repair 5e95612 -- before it
+   -4 was of kind 1 and its first three elements contain the improper -4+) *)
+Definition flip_of (kind : nat) (S : list rot) (d : rot) : option rot :=
+  match kind with
+  | 1%nat | 3%nat => Some (last S d)
+  | 2%nat => Some (nth 3 S d)
+  | _ => None
+  end.
+Definition sub_of (kind : nat) (S : list rot) : list rot :=
+  match kind with
+  | 1%nat | 2%nat => firstn 3 S
+  | 3%nat => filter (fun s => negb (snd s)) S
+  | _ => S
+  end.
+
 Definition project (kind : nat) (tol : T) (S : list rot) (N : list vec3) (center : option vec3)
            (v : vec3) : vec3 :=
   match center with
   | None => v
   | Some c =>
-      let flip (s : rot) := if o_ltb O (vz v) (o_ofZ O 0) then ract O s v else v in
       let d := (qone O, false) in
-      let '(v1, S1) :=
-        match kind with
-        | 1%nat => (flip (last S d), firstn 3 S)
-        | 2%nat => (flip (nth 3 S d), firstn 3 S)
-        | _ => (v, S)
-        end in
+      let v1 := match flip_of kind S d with
+                | Some f => if o_ltb O (vz v) (o_ofZ O 0) then ract O f v else v
+                | None => v
+                end in
+      let S1 := sub_of kind S in
       let closeness := map (fun s => rnd (vdot O v1 (ract O s c))) S1 in
       let s := nth (argmax closeness) S1 d in
       let v2 := ract O (rinv O s) v1 in
